@@ -228,9 +228,16 @@ XMLUCS4Transcoder::transcodeTo( const   XMLCh* const    srcData
             if ( !( (trailCh >= 0xDC00) && (trailCh <= 0xDFFF) ) )
                 ThrowXMLwithMemMgr(TranscodingException, XMLExcepts::Trans_BadTrailingSurrogate, getMemoryManager());
 
-            // And now combine the two into a single output char
+            //
+            //  And now combine the two into a single output char, swapped
+            //  if required like any other char.
+            //
             const XMLInt32 SURROGATE_OFFSET = 0x10000 - (0xD800 << 10) - 0xDC00;
-            *outPtr++ = (curCh << 10) + trailCh + SURROGATE_OFFSET;
+            const UCS4Ch tmpCh = UCS4Ch((curCh << 10) + trailCh + SURROGATE_OFFSET);
+            if (fSwapped)
+                *outPtr++ = BitOps::swapBytes(tmpCh);
+            else
+                *outPtr++ = tmpCh;
         }
          else
         {
